@@ -2393,6 +2393,7 @@ func (db *DB) CommitJournal(ctx context.Context, mode JournalMode) (err error) {
 	}
 
 	// Update database flags.
+	prevMode := db.Mode()
 	db.pageN.Store(commit)
 	db.mode.Store(dbMode)
 
@@ -2403,6 +2404,16 @@ func (db *DB) CommitJournal(ctx context.Context, mode JournalMode) (err error) {
 	}
 	if err := db.setPos(pos, enc.Header().Timestamp); err != nil {
 		return fmt.Errorf("set pos: %w", err)
+	}
+
+	// The database enters WAL mode. Rollback journal commits do not maintain
+	// the SHM file: a header that an apply or an import left there describes
+	// the database as it was then, and a connection that is still attached
+	// from an earlier time in WAL mode makes every new one trust it.
+	if prevMode != DBModeWAL && dbMode == DBModeWAL {
+		if err := db.updateSHM(); err != nil {
+			return fmt.Errorf("update shm: %w", err)
+		}
 	}
 
 	// Update metrics
